@@ -35,6 +35,8 @@ type fileSpec struct {
 	Imports map[string]string `json:"imports"`
 	// NoSync: only insert probes / points, leave synchronisation operations alone.
 	NoSync bool `json:"nosync"`
+	// LoopTicks: functions ("F", "T.M" or "(*T).M") whose for/range bodies get a vsync.LoopTick("<func>#<k>").
+	LoopTicks []string `json:"loopticks"`
 }
 
 type spec struct {
@@ -316,6 +318,7 @@ func instrument(path string, src []byte, fs *fileSpec) ([]byte, error) {
 
 	in.insertProbes()
 	in.insertPoints()
+	in.insertLoopTicks()
 
 	astutil.Apply(f, nil, func(c *astutil.Cursor) bool {
 		if in.err != nil || fs.NoSync {
@@ -407,7 +410,7 @@ func instrument(path string, src []byte, fs *fileSpec) ([]byte, error) {
 	if in.err != nil {
 		return nil, in.err
 	}
-	if in.used || len(fs.Probes) > 0 || len(fs.Points) > 0 {
+	if in.used || len(fs.Probes) > 0 || len(fs.Points) > 0 || len(fs.LoopTicks) > 0 {
 		astutil.AddNamedImport(fset, f, "vsync", "verif/vsync")
 	}
 	for _, pk := range []struct{ name, path string }{{in.pkgSync, "sync"}, {in.pkgTime, "time"}, {in.pkgErrg, "golang.org/x/sync/errgroup"}} {
@@ -738,5 +741,65 @@ func (in *inst) insertProbes() {
 	}
 	for w := range want {
 		in.err = fmt.Errorf("probe target %s not found", w)
+	}
+}
+
+// funcDeclName renders a function declaration's name the way probes and loop ticks are configured.
+func (in *inst) funcDeclName(fd *ast.FuncDecl) string {
+	name := fd.Name.Name
+	if fd.Recv != nil && len(fd.Recv.List) == 1 {
+		t := in.exprString(fd.Recv.List[0].Type)
+		if strings.HasPrefix(t, "*") {
+			return "(" + t + ")." + name
+		}
+		return t + "." + name
+	}
+	return name
+}
+
+// insertLoopTicks adds vsync.LoopTick("<func>#<k>") as the first statement of every for/range body of the
+// configured functions (k = index of the loop in source order).
+func (in *inst) insertLoopTicks() {
+	if len(in.fs.LoopTicks) == 0 {
+		return
+	}
+	want := map[string]bool{}
+	for _, f := range in.fs.LoopTicks {
+		want[f] = true
+	}
+	for _, d := range in.file.Decls {
+		fd, ok := d.(*ast.FuncDecl)
+		if !ok || fd.Body == nil {
+			continue
+		}
+		name := in.funcDeclName(fd)
+		if !want[name] {
+			continue
+		}
+		delete(want, name)
+		k := 0
+		ast.Inspect(fd.Body, func(n ast.Node) bool {
+			var body *ast.BlockStmt
+			switch x := n.(type) {
+			case *ast.ForStmt:
+				body = x.Body
+			case *ast.RangeStmt:
+				body = x.Body
+			}
+			if body != nil {
+				var key ast.Expr = ast.NewIdent("nil")
+				if fd.Type.Params != nil && len(fd.Type.Params.List) > 0 && len(fd.Type.Params.List[0].Names) > 0 && fd.Type.Params.List[0].Names[0].Name != "_" {
+					key = ast.NewIdent(fd.Type.Params.List[0].Names[0].Name)
+				}
+				tick := &ast.ExprStmt{X: call(vs("LoopTick"), str(fmt.Sprintf("%s#%d", name, k)), key)}
+				body.List = append([]ast.Stmt{tick}, body.List...)
+				k++
+				in.used = true
+			}
+			return true
+		})
+	}
+	for w := range want {
+		in.err = fmt.Errorf("looptick target %s not found", w)
 	}
 }
